@@ -94,7 +94,10 @@ let run_pool params ops =
     | "w" -> ignore (stepop (PWrite (nat_of_z (arg 0), arg 1))); "w"
     | "r" -> (match stepop (PRead (nat_of_z (arg 0))) with ORd v -> "r " ^ h v | _ -> "?")
     | "t" -> (match stepop PTruncate with OTr c -> seen := []; mcount := 0; "t " ^ h c | _ -> "?")
-    | "c" -> (match stepop PCount with OCn c -> Printf.sprintf "c %s 1" (h (if kind = 0 then zi !mcount else c)) | _ -> "?")
+    | "c" -> (match stepop PCount with
+        | OCn c -> let ms = (ps_pool !st).mp_ms in
+          Printf.sprintf "c %s 1 | %s %s" (h (if kind = 0 then zi !mcount else c)) (h ms.ms_per) (h ms.ms_nst)
+        | _ -> "?")
     | _ -> "UNKNOWN_OP") ops in
   String.concat " ; " (out @ ["E 0"])
 
